@@ -397,13 +397,82 @@ func (g *sgen) fShared() {
 	}
 }
 
+// ties in what the command's formatters sort by: typedefs with one name and one definition in
+// several scopes of a module and in several modules, every one of them used (the types listing
+// then holds several root types that print alike and differ only in where they were defined),
+// near misses of them, chains on top of them, and modules with identical bodies.
+var tieDefs = [][2]string{
+	{"percent", `type uint8 { range "0..100"; }`},
+	{"percent", `type uint8 { range "0..100"; } units "%";`},
+	{"color", "type enumeration { enum red; enum green; enum blue; }"},
+	{"flags", "type bits { bit a; bit b; }"},
+	{"name", `type string { length "1..8"; pattern "[a-z]+"; }`},
+	{"either", "type union { type int8; type string; }"},
+	{"ratio", "type decimal64 { fraction-digits 2; }"},
+	{"count", "type uint32; default 7;"},
+	{"ref", "type leafref { path \"/b:c/b:x\"; }"},
+	{"idr", "type identityref { base b:root; }"},
+}
+
+func (g *sgen) fTypeTies() {
+	g.feat("equal-typedefs-in-several-scopes")
+	def := tieDefs[g.r.Intn(len(tieDefs))]
+	other := tieDefs[g.r.Intn(len(tieDefs))]
+	nm := 1 + g.r.Intn(3)
+	identical := nm > 1 && g.chance(0.35)
+	var firstBody string
+	for i := 0; i < nm; i++ {
+		n := g.modName("t")
+		var sb strings.Builder
+		if g.chance(0.5) {
+			// at module level (one per module: the same name in several modules)
+			fmt.Fprintf(&sb, "  typedef %s { %s }\n  leaf top%d { type %s; }\n", def[0], def[1], i, def[0])
+			if g.chance(0.4) {
+				fmt.Fprintf(&sb, "  typedef %s2 { type %s; }\n  leaf-list chain%d { type %s2; }\n", def[0], def[0], i, def[0])
+			}
+		}
+		nc := 2 + g.r.Intn(2)
+		for c := 0; c < nc; c++ {
+			d := def
+			if g.chance(0.15) {
+				d = other // a different type between the equal ones
+			}
+			body := d[1]
+			if g.chance(0.12) && d[0] == "percent" {
+				body = `type uint8 { range "0..99"; }` // a near miss under the same name
+			}
+			fmt.Fprintf(&sb, "  container s%d {\n    typedef %s { %s }\n    leaf v { type %s; }\n", c, d[0], body, d[0])
+			if g.chance(0.3) {
+				fmt.Fprintf(&sb, "    leaf-list w { type %s; }\n", d[0])
+			}
+			if g.chance(0.25) {
+				fmt.Fprintf(&sb, "    leaf inl { %s }\n", strings.SplitN(d[1], ";", 2)[0]+";")
+			}
+			sb.WriteString("  }\n")
+		}
+		body := sb.String()
+		if identical {
+			if i == 0 {
+				firstBody = body
+			} else {
+				body = firstBody
+			}
+		}
+		pfx := n
+		if identical {
+			pfx = "tt"
+		}
+		g.add(n, fmt.Sprintf("module %s {\n  namespace \"urn:%s\";\n  prefix %s;\n  import b { prefix b; }\n%s}\n", n, n, pfx, body))
+	}
+}
+
 // genSet builds one source set; the load order is shuffled.
 func genSet(r *rand.Rand) *srcSet {
 	g := &sgen{r: r, s: &srcSet{}, used: map[string]bool{}, feats: map[string]bool{}}
 	g.base()
 	// features that may leave the set clean are drawn three times as often as those that always
 	// end in errors
-	clean := []func(){g.fIdent, g.fDevPair, g.fDev2, g.fAug2, g.fRevs, g.fForeignInclude, g.fSubCircle, g.fShared}
+	clean := []func(){g.fIdent, g.fDevPair, g.fDev2, g.fAug2, g.fRevs, g.fForeignInclude, g.fSubCircle, g.fShared, g.fTypeTies, g.fTypeTies}
 	faulty := []func(){g.fAugChain, g.fPosless, g.fSamePos, g.fMany, g.fMissing, g.fCycle}
 	k := 1 + r.Intn(3)
 	if r.Float64() < 0.15 {
